@@ -20,6 +20,7 @@ Not theorems (labelled partial in the manifest): tamper evidence of the GCM enve
 the real code.
 -/
 import Golib.Proof.C09Top
+import Golib.Proof.C09Trans
 import Golib.Proof.C09EncInv
 import Golib.Proof.C09Dec
 import Golib.Proof.C09Arena
@@ -433,6 +434,61 @@ theorem c09_facts_match_model :
     Gen.C09.decryptDecodeCall = "strz.Base64Decode(cipherText, base64.StdEncoding)" ∧
     Gen.C09.gcmDecryptDecodeCall = "strz.HexDecode(cipherText)" := by
   decide +kernel
+
+/-! ### Regenerated tie (wave 9): `fillCred` as `go2lean` translates it from the tree under
+verification on every run (`Gen/TransC09.lean`)
+
+`md5.Sum` is an extern FUNCTION parameter of the translation (pure; `[16]byte` = a list, so the
+array type is the hypothesis `|md5 x| = 16`), the local `var prevSum [16]byte` is a list of 16
+zeros, the local `buf` (`make([]byte, 0, cap)`, resliced by `buf = buf[:k]` only, no second name)
+is the pair (visible part, rest of its array), `cred` is an in-out slice parameter, the generic
+`secret E` a byte list.  Bytes are `BitVec 8` in the translation and `Nat` in the model
+(`absBytes`/`concBytes`); the model-side `md5` that belongs to the Go-side one is `liftMd5 md5`. -/
+
+/-- TIE: the regenerated `fillCred` computes the final `cred` of the hand-written model
+`Golib.C09.fillCred` (the definition `c09_cred_is_evp` and `c09_fillCred_any_length` are about)
+and panics exactly where the model does; the fuel (4) never runs out.  For every `cred`, `salt`,
+`secret` and EVERY function `md5` (the equation does not depend on the digest length; the
+hypothesis records what the Go type `[16]byte` guarantees and what the translation assumes). -/
+theorem c09_trans_fillCred (md5 : List (BitVec 8) → List (BitVec 8)) (_hmd : ∀ x, (md5 x).length = 16)
+    (cred salt secret : List (BitVec 8)) :
+    Golib.Gen.Trans.C09.fillCred cred salt secret md5 =
+      match Golib.C09.fillCred (liftMd5 md5) (absBytes cred) (absBytes salt) (absBytes secret) with
+      | some c => .ok (concBytes c)
+      | none => .panic :=
+  trans_fillCred md5 cred salt secret
+
+/-- the property clause restated on the regenerated definition: with the 48-byte `cred` the
+library passes, the code as it is in the tree returns OpenSSL's `EVP_BytesToKey(MD5, count 1)`
+key material `D1‖D2‖D3`, `D1 = MD5(secret‖salt)`, `Di = MD5(D(i-1)‖secret‖salt)`; for any other
+length: a panic exactly below 32 bytes, the length of `cred` kept, from 48 bytes on the first 48
+bytes are the key material and the rest is untouched. -/
+theorem c09_trans_fillCred_evp (md5 : List (BitVec 8) → List (BitVec 8)) (hmd : ∀ x, (md5 x).length = 16)
+    (cred salt secret : List (BitVec 8)) :
+    (cred.length = 48 → Golib.Gen.Trans.C09.fillCred cred salt secret md5 =
+      .ok (md5 (secret ++ salt) ++ md5 (md5 (secret ++ salt) ++ secret ++ salt) ++
+        md5 (md5 (md5 (secret ++ salt) ++ secret ++ salt) ++ secret ++ salt))) ∧
+    (cred.length < 32 → Golib.Gen.Trans.C09.fillCred cred salt secret md5 = .panic) ∧
+    (32 ≤ cred.length → ∃ c, Golib.Gen.Trans.C09.fillCred cred salt secret md5 = .ok c ∧
+      c.length = cred.length ∧
+      (48 ≤ cred.length → c.take 48 = evpGo md5 secret salt ∧ c.drop 48 = cred.drop 48)) :=
+  ⟨trans_fillCred_evp md5 hmd cred salt secret, trans_fillCred_short md5 hmd cred salt secret,
+    trans_fillCred_long md5 hmd cred salt secret⟩
+
+/-- non-vacuity: a 16-byte "digest" on Go bytes; the regenerated definition runs (48-byte `cred`:
+a value; 31-byte `cred`: the panic of `cred[32:]`; 32 bytes: no panic) -/
+def toyMd5Go : List (BitVec 8) → List (BitVec 8) := fun x => (x ++ List.replicate 16 7#8).take 16
+
+example : ∀ x, (toyMd5Go x).length = 16 := by intro x; simp [toyMd5Go]
+
+example :
+    Golib.Gen.Trans.C09.fillCred (List.replicate 48 0#8) [9#8, 8#8] [1#8, 2#8, 3#8] toyMd5Go =
+      .ok ([1, 2, 3, 9, 8, 7, 7, 7, 7, 7, 7, 7, 7, 7, 7, 7] ++
+           [1, 2, 3, 9, 8, 7, 7, 7, 7, 7, 7, 7, 7, 7, 7, 7] ++
+           [1, 2, 3, 9, 8, 7, 7, 7, 7, 7, 7, 7, 7, 7, 7, 7]) ∧
+    Golib.Gen.Trans.C09.fillCred (List.replicate 31 0#8) [9#8] [1#8] toyMd5Go = .panic ∧
+    Golib.Gen.Trans.C09.fillCred (List.replicate 32 5#8) [9#8] [1#8] toyMd5Go ≠ .panic := by
+  refine ⟨?_, ?_, ?_⟩ <;> decide +kernel
 
 /-! ### Non-vacuity -/
 
